@@ -808,8 +808,8 @@ def select_params(case):
 
 class C12(Check):
     pid = "C12"
-    quick_cases = 700
-    thorough_cases = 12000
+    quick_cases = 2500
+    thorough_cases = 30000
     rule = ("source profiles over tree-linked schemas drawn from 14 relations (item/parse/result/run/tree/edge, the "
             "core relations, a keyless one), 0-5 rows per relation, key values from a domain of 1-4 (one-to-many, "
             "dangling and empty keys, '01' vs '1'), strings from the C08 corner alphabet, adjacent and non-adjacent "
